@@ -93,6 +93,18 @@ std::string sizes_str(const std::vector<size_t> &v, size_t max = 8) {
 // ended: "" = it returned, otherwise "crash:sanitizer" / "crash:sigN" /
 // "crash:exitN". Used where the property's defect can only show as a crash:
 // the state is recognised and reported instead of killing the batch process.
+std::string dies_in_child(const std::function<void()> &fn);
+// The outcome of a guarded call is a function of (code, input): within one
+// process it is established once per key and remembered (forking a sanitized
+// process costs milliseconds).
+std::string dies_in_child_cached(const std::string &key, const std::function<void()> &fn) {
+	static std::map<std::string, std::string> cache;
+	auto it = cache.find(key);
+	if (it != cache.end()) return it->second;
+	std::string how = dies_in_child(fn);
+	if (cache.size() < 20000) cache[key] = how;
+	return how;
+}
 std::string dies_in_child(const std::function<void()> &fn) {
 	fflush(stdout); fflush(stderr);
 	pid_t pid = fork();
@@ -248,7 +260,16 @@ Ownership check_ownership(Env &env, const std::vector<Box *> &boxes) {
 		if (best == 0) break;
 	}
 	r.ok = best == 0;
-	if (r.ok) for (size_t k = 0; k < unknown.size(); k++) unknown[k]->m.periods = (best_mask >> k & 1) ? 1 : 0;
+	// learn only what is unambiguous: two undecided objects of equal dimension
+	// with different answers cannot be told apart by block sizes
+	if (r.ok) for (size_t k = 0; k < unknown.size(); k++) {
+		bool ambiguous = false;
+		for (size_t j = 0; j < unknown.size(); j++)
+			if (j != k && unknown[j]->m.ndim == unknown[k]->m.ndim && ((best_mask >> j & 1) != (best_mask >> k & 1))) ambiguous = true;
+		// a lost block of the same size as a period array makes the answer ambiguous too
+		if (std::find(env.lost.begin(), env.lost.end(), 8 * (size_t)unknown[k]->m.ndim) != env.lost.end()) ambiguous = true;
+		if (!ambiguous) unknown[k]->m.periods = (best_mask >> k & 1) ? 1 : 0;
+	}
 	return r;
 }
 
@@ -274,15 +295,22 @@ bool learn_value_slack(Env &env, const std::vector<Box *> &boxes, Box &target) {
 		std::sort(rest.begin(), rest.end());
 		std::vector<size_t> extra, missing;
 		multiset_diff(actual, rest, extra, missing);
-		if (!missing.empty() || extra.size() != target.m.aux.size()) continue;
+		if (!missing.empty() || extra.size() < target.m.aux.size()) continue;
 		std::vector<std::pair<size_t, size_t>> want;   // (strlen+1, entry index)
 		for (size_t i = 0; i < target.m.aux.size(); i++) want.emplace_back(target.m.aux[i].second.size() + 1, i);
 		std::sort(want.begin(), want.end());
+		// ascending values take the smallest remaining block that fits (whatever is left over is
+		// storage nobody owns: the ownership check reports it)
+		std::vector<size_t> pool = extra, got(want.size(), 0);
 		bool ok = true;
-		for (size_t i = 0; i < want.size() && ok; i++) if (extra[i] < want[i].first || extra[i] > want[i].first + 2) ok = false;
+		for (size_t i = 0; i < want.size() && ok; i++) {
+			auto it = std::lower_bound(pool.begin(), pool.end(), want[i].first);
+			if (it == pool.end() || *it > want[i].first + 2) ok = false;
+			else { got[i] = *it; pool.erase(it); }
+		}
 		if (!ok) continue;
 		uint64_t n = 0;
-		for (size_t i = 0; i < want.size(); i++) { target.m.set_slack(want[i].second, (int)(extra[i] - want[i].first)); if (extra[i] != want[i].first) n++; }
+		for (size_t i = 0; i < want.size(); i++) { target.m.set_slack(want[i].second, (int)(got[i] - want[i].first)); if (got[i] != want[i].first) n++; }
 		if (n) env.ctx.count("probe:value_block_longer_than_string", (int64_t)n);
 		return true;
 	}
@@ -329,6 +357,22 @@ Json gen_source(Rng &g, size_t ntables, bool allow_missing, double p_bad) {
 	else { d["c"] = Json("foreign"); d["kind"] = Json(g.pick(foreign_kinds())); d["seed"] = Json((long long)(g.next() >> 20)); }
 	s["damage"] = d;
 	return s;
+}
+
+// Damaged images can send the reader itself into undefined behaviour (cfitsio's
+// memory driver fetches whole 2880-byte records past the end of a short buffer;
+// crafted headers overflow cfitsio buffers): that is C07's subject. Histories
+// only use damaged images on which the reader survives, established in a child.
+bool reader_survives(const Bytes &img, bool mem) {
+	std::string key = std::string(mem ? "readmem:" : "readdisk:") + hex64(img.empty() ? 0 : fnv1a(img.data(), img.size())) + ":" + std::to_string(img.size());
+	std::string how = dies_in_child_cached(key, [&]() {
+		Ledger l2; Ledger::Scope sc2(l2);
+		alignas(Tab) static unsigned char raw[sizeof(Tab)];
+		Tab *t = new (raw) Tab(SimAlloc<void>(0));
+		if (mem) { Bytes copy = img; unsigned char dummy = 0; t->read_fits_mem(copy.empty() ? (void *)&dummy : (void *)copy.data(), copy.size()); }
+		else { disk::put("/sim/probe.fits", img); t->read_fits("/sim/probe.fits"); }
+	});
+	return how.empty();
 }
 
 // ---------------------------------------------------------------- small fit problems
